@@ -127,8 +127,11 @@ def ref_run(root):
         if act[0] == "none":
             todo = rest; continue
         if act[0] == "insert":
-            # a sequence ending in next_inner inserts its other items before the rest
-            todo = [(i, d, False) for i in act[1]] + [(a, b, False if not isinstance(a, types.FrameType) else c) for a, b, c in rest]
+            # a sequence ending in next_inner inserts its other items before the rest: they are inward of THIS frame only,
+            # so a prune/replace issued from one of them must stop at next_inner (they are deeper than it), while
+            # next_inner keeps its place and its own depth
+            di = (max(d, rest[0][1]) + 1) if rest else d
+            todo = [(i, di, False) for i in act[1]] + [(a, b, False if not isinstance(a, types.FrameType) else c) for a, b, c in rest]
             continue
         items = [] if act[0] == "prune" else list(act[1])
         # anything else replaces the rest: the frame's callees (depth >= its depth) are removed, nothing outward of them
